@@ -598,7 +598,9 @@ impl PrivateKey {
             der_key,
             &SystemRandom::new(),
         )
-        .unwrap();
+        .map_err(|_| {
+            Error::Encoding("Could not parse key as PKCS#8v2".into())
+        })?;
         let public = PublicKey::new(
             KeyType::Ecdsa,
             scheme,
